@@ -593,8 +593,8 @@ def parse_hist(a):
 
 
 ARITY = {"I": 1, "Io": 1, "L": 1, "P": 1, "X": 1, "D": 2, "G": 2, "m": 2, "M": 2, "gm": 0, "gM": 0, "C": 0, "Cs": 0, "Cm": 0, "Sv": 1}
-# pending repair C08-2 (Integrate applies the prefactor once): until it is applied Integrate is exempt from the bit-exact factor clause
-STRICT_INTEG = "C08-2" in os.environ.get("LP_ASSUME_FIXED", "").split(",")
+# since fix 441bef8 Integrate applies the prefactor once: it is part of the bit-exact factor clause like every other answer
+STRICT_INTEG = True
 
 
 def parse_pool(a):
